@@ -193,11 +193,30 @@ def place_chops(sx, blocks, spec, lo=1, hi=6):
     return chops
 
 
-def grade(mesh, nblocks):
+SENTINEL = "// a complete dictionary from an earlier run\n"
+LAST_WRITE = {}
+
+
+def grade(mesh, nblocks, via_write=False):
+    """grades through the real Mesh.grade(), or (via_write) through the real Mesh.write() into a scratch file that
+    already holds a dictionary; LAST_WRITE then tells what the file holds afterwards"""
     _CALLS["n"] = 0
     _CALLS["cap"] = 4 * (3 * nblocks) ** 2
+    path = None
+    if via_write:
+        import os
+        import tempfile
+
+        d = os.path.join(os.path.dirname(os.path.dirname(os.path.abspath(__file__))), ".scratch")
+        os.makedirs(d, exist_ok=True)
+        fd, path = tempfile.mkstemp(dir=d, suffix=".bmd")
+        os.write(fd, SENTINEL.encode())
+        os.close(fd)
     try:
-        mesh.grade()
+        if via_write:
+            mesh.write(path)
+        else:
+            mesh.grade()
         return "ok"
     except UndefinedGradingsError:
         return "undefined"
@@ -207,3 +226,16 @@ def grade(mesh, nblocks):
         return "nonterm"
     finally:
         _CALLS["cap"] = 10 ** 9
+        if path is not None:
+            import os
+
+            LAST_WRITE.clear()
+            if os.path.exists(path):
+                with open(path, encoding="utf-8") as fh:
+                    text = fh.read()
+                os.unlink(path)
+                LAST_WRITE.update({"exists": True, "untouched": text == SENTINEL, "bytes": len(text),
+                                   "complete": all(k in text for k in ("FoamFile", "vertices", "blocks", "edges", "boundary",
+                                                                       "mergePatchPairs")) and text.count("hex ") == nblocks})
+            else:
+                LAST_WRITE.update({"exists": False, "untouched": False, "bytes": 0, "complete": False})
